@@ -5,9 +5,9 @@ package main
 //
 //	harness C02 -tool facts <out.lean>
 //
-// Every fact is three-valued: true / false / unknown (the extractor does not recognise the shape
-// of the function any more: lock operations inside nested blocks, function missing, …). The Lean
-// side (Props/C02.lean, "source facts") demands `some true` for each. Facts do not mention
+// Every fact is three-valued: true / false / not established (none). The Lean side (Props/C02.lean,
+// "source facts") demands `≠ some false`: only a REFUTED fact breaks an obligation; `none` is an
+// evidence note and amplifies the search of the same run. Facts do not mention
 // positions or local names: renaming locals, adding comments or unrelated statements changes
 // nothing; moving a read of the counter out of the critical section, registering an observer
 // after the hand-over, calling an asserting accessor in AllErrors … flips a fact.
@@ -22,174 +22,386 @@ import (
 	"strings"
 )
 
-// c02Ev is one relevant operation of a function body, in source order.
+// ---------------------------------------------------------------- traces with inlining
+//
+// c02Trace linearises a function: its statements in source order, calls into functions and
+// methods of the SAME package inlined (by name; all candidates when a name is ambiguous; depth
+// <= 6; recursion cut) with the caller's lock state. Lock state is semantic: "the lock" is any
+// field of mutex type (sync.Mutex / sync.RWMutex, value or pointer) of the struct type that
+// declares the watched field — whatever the field is called — or, for a package-level variable,
+// any package-level mutex variable. `epoch` counts the Unlocks seen so far: two accesses are in
+// the same critical section iff both are held and have the same epoch.
+
 type c02Ev struct {
-	kind string // lock unlock deferunlock call read write
-	name string // callee / field
-	held bool   // the function's lock is held here
-	pos  token.Pos
+	kind  string // call read write mapwrite select go recv
+	name  string
+	held  bool
+	epoch int
+	via   string // names of the inlined same-package calls this event was reached through ("AddEvent>Activate")
+	fn    string // lexical function
 }
 
-type c02Fn struct {
-	evs     []c02Ev
-	unknown bool
+type c02An struct {
+	pkg       *srcPkg
+	funcs     map[string][]*ast.FuncDecl
+	lockNames map[string]bool // mutex fields of the owner struct + package-level mutex variables
+	ownerType string          // the struct type declaring the owner field ("" for a package-level variable)
+	imports   map[*ast.FuncDecl]map[string]string
+	watch     map[string]bool
 }
 
-func c02Sel(e ast.Expr) (x ast.Expr, name string) {
+func c02IsMutexType(e ast.Expr) bool {
+	if s, ok := e.(*ast.StarExpr); ok {
+		e = s.X
+	}
 	if s, ok := e.(*ast.SelectorExpr); ok {
-		return s.X, s.Sel.Name
+		if id, ok := s.X.(*ast.Ident); ok && id.Name == "sync" && (s.Sel.Name == "Mutex" || s.Sel.Name == "RWMutex") {
+			return true
+		}
 	}
-	if id, ok := e.(*ast.Ident); ok {
-		return nil, id.Name
-	}
-	return nil, ""
+	return false
 }
 
-// c02IsLockRecv: the receiver expression of Lock/Unlock is the lock of this function
-// (a field called `lock`, or the given package-level mutex).
-func c02IsLockRecv(e ast.Expr, lockName string) bool {
-	_, n := c02Sel(e)
-	return n == lockName
+// c02NewAn: ownerField names a field; the mutex fields of the struct declaring it are "the lock".
+func c02NewAn(p *srcPkg, ownerField string, watch map[string]bool) *c02An {
+	a := &c02An{pkg: p, funcs: map[string][]*ast.FuncDecl{}, lockNames: map[string]bool{}, watch: watch,
+		imports: map[*ast.FuncDecl]map[string]string{}}
+	for _, f := range p.files {
+		imps := fileImports(f)
+		for _, d := range f.Decls {
+			switch v := d.(type) {
+			case *ast.FuncDecl:
+				a.funcs[v.Name.Name] = append(a.funcs[v.Name.Name], v)
+				a.imports[v] = imps
+			case *ast.GenDecl:
+				for _, sp := range v.Specs {
+					switch t := sp.(type) {
+					case *ast.TypeSpec:
+						st, ok := t.Type.(*ast.StructType)
+						if !ok {
+							continue
+						}
+						owns := false
+						var mus []string
+						for _, fl := range st.Fields.List {
+							for _, n := range fl.Names {
+								if n.Name == ownerField {
+									owns = true
+								}
+								if c02IsMutexType(fl.Type) {
+									mus = append(mus, n.Name)
+								}
+							}
+						}
+						if owns {
+							a.ownerType = t.Name.Name
+							for _, m := range mus {
+								a.lockNames[m] = true
+							}
+						}
+					case *ast.ValueSpec:
+						// package-level mutex variables (var x = &sync.Mutex{} / var x sync.Mutex)
+						if ownerField != "" && !p.vars[ownerField] {
+							continue
+						}
+						for k, n := range t.Names {
+							isMu := t.Type != nil && c02IsMutexType(t.Type)
+							if k < len(t.Values) {
+								v := t.Values[k]
+								if u, ok := v.(*ast.UnaryExpr); ok {
+									v = u.X
+								}
+								if cl, ok := v.(*ast.CompositeLit); ok && c02IsMutexType(cl.Type) {
+									isMu = true
+								}
+							}
+							if isMu {
+								a.lockNames[n.Name] = true
+							}
+						}
+					}
+				}
+			}
+		}
+	}
+	return a
 }
 
-// c02Walk lists lock operations on lockName, calls (by selector / identifier name) and
-// accesses to the fields/variables in `watch`, with the lock state at each point.
-func c02Walk(fd *ast.FuncDecl, lockName string, watch map[string]bool) *c02Fn {
-	r := &c02Fn{}
-	if fd == nil || fd.Body == nil {
-		r.unknown = true
-		return r
+type c02Walker struct {
+	a       *c02An
+	evs     []c02Ev
+	held    bool
+	epoch   int
+	unknown bool
+	stack   map[*ast.FuncDecl]bool
+}
+
+func (w *c02Walker) add(kind, name, via, fn string) {
+	w.evs = append(w.evs, c02Ev{kind, name, w.held, w.epoch, via, fn})
+}
+
+func (w *c02Walker) fn(fd *ast.FuncDecl, via string, depth int) {
+	if fd == nil || fd.Body == nil || w.stack[fd] || depth > 6 {
+		return
 	}
-	held, deferred := false, false
+	w.stack[fd] = true
+	defer delete(w.stack, fd)
+	entryHeld := w.held
+	deferred := false
+	name := fd.Name.Name
 	writes := map[ast.Expr]bool{}
-	var walkStmt func(s ast.Stmt, depth int)
-	exprs := func(n ast.Node, depth int) {
+	// declared types of the receiver and the parameters (to tell WHOSE mutex is locked)
+	varType := map[string]string{}
+	declare := func(fl *ast.FieldList) {
+		if fl == nil {
+			return
+		}
+		for _, f := range fl.List {
+			t := f.Type
+			if st, ok := t.(*ast.StarExpr); ok {
+				t = st.X
+			}
+			if id, ok := t.(*ast.Ident); ok {
+				for _, n := range f.Names {
+					varType[n.Name] = id.Name
+				}
+			}
+		}
+	}
+	declare(fd.Recv)
+	declare(fd.Type.Params)
+	// isTheLock: <x>.<mutex field> with x declared of the owner type, or a package-level mutex variable
+	isTheLock := func(recv ast.Expr) bool {
+		base, ln := c02Sel(recv)
+		if !w.a.lockNames[ln] {
+			return false
+		}
+		if base == nil {
+			return w.a.ownerType == "" // package-level mutex variable
+		}
+		if id, ok := base.(*ast.Ident); ok && w.a.ownerType != "" {
+			return varType[id.Name] == w.a.ownerType
+		}
+		return false
+	}
+	imps := w.a.imports[fd]
+	var stmt func(s ast.Stmt, nest int)
+	var expr func(n ast.Node, nest int)
+	expr = func(n ast.Node, nest int) {
 		if n == nil {
 			return
 		}
 		ast.Inspect(n, func(x ast.Node) bool {
 			switch v := x.(type) {
 			case *ast.FuncLit:
-				// a closure runs later (observer callbacks): not part of this function's order
-				return false
-			case *ast.CallExpr:
-				recv, name := c02Sel(v.Fun)
-				if (name == "Lock" || name == "Unlock") && recv != nil && c02IsLockRecv(recv, lockName) {
-					if depth > 0 {
-						r.unknown = true
-					}
-					if name == "Lock" {
-						held = true
-						r.evs = append(r.evs, c02Ev{"lock", lockName, true, v.Pos()})
-					} else {
-						held = deferred
-						r.evs = append(r.evs, c02Ev{"unlock", lockName, held, v.Pos()})
-					}
-					return false
+				return false // runs later (observer callbacks)
+			case *ast.UnaryExpr:
+				if v.Op == token.ARROW {
+					w.add("recv", "", via, name)
 				}
-				if name != "" {
-					r.evs = append(r.evs, c02Ev{"call", name, held, v.Pos()})
+			case *ast.CallExpr:
+				for _, arg := range v.Args {
+					expr(arg, nest)
+				}
+				recv, cn := c02Sel(v.Fun)
+				if (cn == "Lock" || cn == "Unlock" || cn == "RLock" || cn == "RUnlock") && recv != nil {
+					if isTheLock(recv) {
+						if nest > 0 {
+							w.unknown = true
+						}
+						if cn == "Lock" || cn == "RLock" {
+							w.held = true
+						} else {
+							w.held = false
+							w.epoch++
+						}
+						return false
+					}
+				}
+				if cn == "delete" && len(v.Args) == 2 {
+					if se, ok := v.Args[0].(*ast.SelectorExpr); ok && w.a.watch[se.Sel.Name] {
+						w.add("mapwrite", se.Sel.Name, via, name)
+					}
+				}
+				if cn != "" {
+					w.add("call", cn, via, name)
+					if recv != nil {
+						expr(recv, nest)
+					}
+					external := false
+					if id, ok := recv.(*ast.Ident); ok && recv != nil {
+						if _, isImp := imps[id.Name]; isImp && varType[id.Name] == "" {
+							external = true // a function of an imported package
+						}
+					}
+					for _, cand := range w.a.funcs[cn] {
+						if external {
+							break
+						}
+						nv := cn
+						if via != "" {
+							nv = via + ">" + cn
+						}
+						w.fn(cand, nv, depth+1)
+					}
+				}
+				return false
+			case *ast.IndexExpr:
+				if se, ok := v.X.(*ast.SelectorExpr); ok && w.a.watch[se.Sel.Name] && writes[v] {
+					w.add("mapwrite", se.Sel.Name, via, name)
 				}
 			case *ast.SelectorExpr:
-				if watch[v.Sel.Name] {
+				if w.a.watch[v.Sel.Name] {
 					k := "read"
 					if writes[v] {
 						k = "write"
 					}
-					r.evs = append(r.evs, c02Ev{k, v.Sel.Name, held, v.Pos()})
+					w.add(k, v.Sel.Name, via, name)
 				}
 			case *ast.Ident:
-				if watch[v.Name] && v.Obj != nil && v.Obj.Kind == ast.Var {
+				if w.a.watch[v.Name] && w.a.pkg.vars[v.Name] {
 					k := "read"
 					if writes[v] {
 						k = "write"
 					}
-					r.evs = append(r.evs, c02Ev{k, v.Name, held, v.Pos()})
+					w.add(k, v.Name, via, name)
 				}
 			}
 			return true
 		})
 	}
-	walkStmt = func(s ast.Stmt, depth int) {
+	stmt = func(s ast.Stmt, nest int) {
 		switch v := s.(type) {
 		case nil:
 		case *ast.BlockStmt:
 			for _, t := range v.List {
-				walkStmt(t, depth)
+				stmt(t, nest)
 			}
 		case *ast.DeferStmt:
-			recv, name := c02Sel(v.Call.Fun)
-			if name == "Unlock" && recv != nil && c02IsLockRecv(recv, lockName) {
-				if depth > 0 {
-					r.unknown = true
+			recv, cn := c02Sel(v.Call.Fun)
+			if (cn == "Unlock" || cn == "RUnlock") && recv != nil {
+				if isTheLock(recv) {
+					if nest > 0 {
+						w.unknown = true
+					}
+					deferred = true
+					return
 				}
-				deferred = true
-				r.evs = append(r.evs, c02Ev{"deferunlock", lockName, held, v.Pos()})
-				return
 			}
-			exprs(v.Call, depth)
+			expr(v.Call, nest)
 		case *ast.IncDecStmt:
 			writes[v.X] = true
-			exprs(v.X, depth)
+			expr(v.X, nest)
 		case *ast.AssignStmt:
 			for _, l := range v.Lhs {
 				writes[l] = true
 			}
 			for _, e := range v.Rhs {
-				exprs(e, depth)
+				expr(e, nest)
 			}
 			for _, l := range v.Lhs {
-				exprs(l, depth)
+				expr(l, nest)
 			}
 		case *ast.IfStmt:
-			walkStmt(v.Init, depth+1)
-			exprs(v.Cond, depth+1)
-			walkStmt(v.Body, depth+1)
-			walkStmt(v.Else, depth+1)
+			stmt(v.Init, nest+1)
+			expr(v.Cond, nest+1)
+			stmt(v.Body, nest+1)
+			stmt(v.Else, nest+1)
 		case *ast.ForStmt:
-			walkStmt(v.Init, depth+1)
-			exprs(v.Cond, depth+1)
-			walkStmt(v.Body, depth+1)
-			walkStmt(v.Post, depth+1)
+			stmt(v.Init, nest+1)
+			expr(v.Cond, nest+1)
+			stmt(v.Body, nest+1)
+			stmt(v.Post, nest+1)
 		case *ast.RangeStmt:
-			exprs(v.X, depth+1)
-			walkStmt(v.Body, depth+1)
+			expr(v.X, nest+1)
+			stmt(v.Body, nest+1)
 		case *ast.SwitchStmt:
-			walkStmt(v.Init, depth+1)
-			exprs(v.Tag, depth+1)
-			walkStmt(v.Body, depth+1)
+			stmt(v.Init, nest+1)
+			expr(v.Tag, nest+1)
+			stmt(v.Body, nest+1)
 		case *ast.CaseClause:
 			for _, e := range v.List {
-				exprs(e, depth+1)
+				expr(e, nest+1)
 			}
 			for _, t := range v.Body {
-				walkStmt(t, depth+1)
+				stmt(t, nest+1)
+			}
+		case *ast.SelectStmt:
+			n := 0
+			if v.Body != nil {
+				n = len(v.Body.List)
+			}
+			w.add("select", fmt.Sprint(n), via, name)
+			stmt(v.Body, nest+1)
+		case *ast.CommClause:
+			stmt(v.Comm, nest+1)
+			for _, t := range v.Body {
+				stmt(t, nest+1)
 			}
 		case *ast.GoStmt:
-			// work moved to another goroutine: order unknown
-			r.unknown = true
+			w.add("go", "", via, name)
 		default:
-			exprs(s, depth)
+			expr(s, nest)
 		}
 	}
-	walkStmt(fd.Body, 0)
-	return r
-}
-
-func (f *c02Fn) first(kind, name string) token.Pos {
-	for _, e := range f.evs {
-		if e.kind == kind && e.name == name {
-			return e.pos
+	stmt(fd.Body, 0)
+	if deferred {
+		// the deferred Unlock runs at return
+		if w.held {
+			w.epoch++
+		}
+		w.held = false
+	}
+	if w.held != entryHeld && !(deferred && !entryHeld) {
+		// a helper that returns with a different lock state than it was entered with
+		if depth > 0 {
+			w.unknown = true
 		}
 	}
-	return token.NoPos
+	if depth > 0 {
+		w.held = entryHeld
+	}
 }
 
-func (f *c02Fn) all(kind, name string) []c02Ev {
-	var out []c02Ev
-	for _, e := range f.evs {
-		if e.kind == kind && e.name == name {
-			out = append(out, e)
+// trace of one function entered without the lock
+func (a *c02An) trace(fd *ast.FuncDecl) *c02Walker {
+	w := &c02Walker{a: a, stack: map[*ast.FuncDecl]bool{}}
+	if fd == nil {
+		w.unknown = true
+		return w
+	}
+	w.fn(fd, "", 0)
+	return w
+}
+
+// roots: the functions of the package no other function of the package calls (by name), plus the
+// exported ones — the places where an analysis may assume "lock not held".
+func (a *c02An) roots() []*ast.FuncDecl {
+	called := map[string]bool{}
+	for _, fds := range a.funcs {
+		for _, fd := range fds {
+			if fd.Body == nil {
+				continue
+			}
+			ast.Inspect(fd.Body, func(n ast.Node) bool {
+				if ce, ok := n.(*ast.CallExpr); ok {
+					if _, cn := c02Sel(ce.Fun); cn != "" && cn != fd.Name.Name {
+						called[cn] = true
+					}
+				}
+				return true
+			})
+		}
+	}
+	var out []*ast.FuncDecl
+	var names []string
+	for n := range a.funcs {
+		names = append(names, n)
+	}
+	sort.Strings(names)
+	for _, n := range names {
+		if !called[n] || ast.IsExported(n) {
+			out = append(out, a.funcs[n]...)
 		}
 	}
 	return out
@@ -208,26 +420,6 @@ func c02B(b bool) c02Tri {
 		return c02True
 	}
 	return c02False
-}
-
-// ordered: every listed operation occurs, the first occurrences are in this order, and no
-// occurrence of a later one precedes an earlier one.
-func (f *c02Fn) ordered(ops ...[2]string) c02Tri {
-	if f.unknown {
-		return c02Unknown
-	}
-	var prevLast token.Pos
-	for _, op := range ops {
-		evs := f.all(op[0], op[1])
-		if len(evs) == 0 {
-			return c02Unknown
-		}
-		if evs[0].pos < prevLast {
-			return c02False
-		}
-		prevLast = evs[len(evs)-1].pos
-	}
-	return c02True
 }
 
 func c02FindFunc(p *srcPkg, recvType, name string) *ast.FuncDecl {
@@ -253,6 +445,35 @@ func c02FindFunc(p *srcPkg, recvType, name string) *ast.FuncDecl {
 		}
 	}
 	return nil
+}
+
+func c02Idx(evs []c02Ev, pred func(e c02Ev) bool) int {
+	for i, e := range evs {
+		if pred(e) {
+			return i
+		}
+	}
+	return -1
+}
+
+// before: the first event satisfying p comes before the first satisfying q (both must exist,
+// otherwise not established)
+func c02Before(w *c02Walker, p, q func(e c02Ev) bool) c02Tri {
+	i, j := c02Idx(w.evs, p), c02Idx(w.evs, q)
+	if w.unknown || i < 0 || j < 0 {
+		return c02Unknown
+	}
+	return c02B(i < j)
+}
+
+func c02Sel(e ast.Expr) (x ast.Expr, name string) {
+	if s, ok := e.(*ast.SelectorExpr); ok {
+		return s.X, s.Sel.Name
+	}
+	if id, ok := e.(*ast.Ident); ok {
+		return nil, id.Name
+	}
+	return nil, ""
 }
 
 // c02PostFilter: every invocation of a callback taken from the observer table (a call of the
@@ -421,97 +642,177 @@ func c02Facts(root string) ([][2]string, []string, error) {
 		}
 		facts = append(facts, [2]string{name, v})
 	}
-	watch := map[string]bool{"unfinished": true}
-
-	// `unfinished`: EVERY read (the zero test) and EVERY write (increment, decrement) anywhere in
-	// package engine happens while the function holds the root's lock (Lock … Unlock or Lock +
-	// deferred Unlock) — however the code is split into helper functions; the finished message
-	// is posted from a place where the function does not hold the lock
-	{
-		reads, writes, posts := c02Unknown, c02Unknown, c02Unknown
-		nr, nw := 0, 0
-		unknown := false
-		for _, f := range eng.files {
-			for _, d := range f.Decls {
-				fd, ok := d.(*ast.FuncDecl)
-				if !ok {
-					continue
+	isCall := func(names ...string) func(e c02Ev) bool {
+		return func(e c02Ev) bool {
+			if e.kind != "call" {
+				return false
+			}
+			for _, n := range names {
+				if e.name == n {
+					return true
 				}
-				w := c02Walk(fd, "lock", watch)
+			}
+			return false
+		}
+	}
+	isAcc := func(kind, name string) func(e c02Ev) bool {
+		return func(e c02Ev) bool { return e.kind == kind && e.name == name }
+	}
+
+	// the root monitor's counter, error map and priority bookkeeping: every access from every entry
+	// point of the package, helpers inlined with the caller's lock state
+	rm := c02NewAn(eng, "unfinished", map[string]bool{"unfinished": true, "errors": true, "incomplete": true})
+	{
+		reads, writes, posts, section := c02Unknown, c02Unknown, c02Unknown, c02Unknown
+		nr, nw := 0, 0
+		unknown := len(rm.lockNames) == 0
+		for _, fd := range rm.roots() {
+			w := rm.trace(fd)
+			if os.Getenv("C02_FACTS_DEBUG") != "" {
 				for _, e := range w.evs {
-					switch {
-					case e.kind == "read" && e.name == "unfinished":
-						nr++
-						unknown = unknown || w.unknown
-						if !e.held {
-							reads = c02False
-						} else if reads == c02Unknown {
-							reads = c02True
+					if e.kind != "call" || e.name == "PostEvent" {
+						fmt.Fprintf(os.Stderr, "root %s unknown=%v: %+v\n", fd.Name.Name, w.unknown, e)
+					}
+				}
+			}
+			lastWrite := -1 // epoch of the latest write of unfinished on this path
+			lastHeld := false
+			for _, e := range w.evs {
+				switch {
+				case e.kind == "read" && e.name == "unfinished":
+					nr++
+					unknown = unknown || w.unknown
+					if !e.held {
+						reads = c02False
+					} else if reads == c02Unknown {
+						reads = c02True
+					}
+					// the test belongs to the critical section of the decrement/increment before it
+					if lastWrite >= 0 {
+						if !e.held || !lastHeld || e.epoch != lastWrite {
+							section = c02False
+						} else if section == c02Unknown {
+							section = c02True
 						}
-					case e.kind == "write" && e.name == "unfinished":
-						nw++
-						unknown = unknown || w.unknown
-						if !e.held {
-							writes = c02False
-						} else if writes == c02Unknown {
-							writes = c02True
-						}
-					case e.kind == "call" && e.name == "PostEvent":
-						unknown = unknown || w.unknown
-						if e.held {
-							posts = c02False
-						} else if posts == c02Unknown {
-							posts = c02True
-						}
+					}
+				case e.kind == "write" && e.name == "unfinished":
+					nw++
+					unknown = unknown || w.unknown
+					lastWrite, lastHeld = e.epoch, e.held
+					if !e.held {
+						writes = c02False
+					} else if writes == c02Unknown {
+						writes = c02True
+					}
+				case (e.kind == "write" || e.kind == "mapwrite") && (e.name == "errors" || e.name == "incomplete"):
+					if e.fn == "newRootMonitor" {
+						continue // construction, not shared yet
+					}
+					unknown = unknown || w.unknown
+					if !e.held {
+						writes = c02False
+					} else if writes == c02Unknown {
+						writes = c02True
+					}
+				case e.kind == "call" && e.name == "PostEvent":
+					unknown = unknown || w.unknown
+					if e.held {
+						posts = c02False
+					} else if posts == c02Unknown {
+						posts = c02True
 					}
 				}
 			}
 		}
-		if unknown || nr < 1 || nw < 2 {
-			if reads != c02False {
-				reads = c02Unknown
+		demote := func(t c02Tri) c02Tri {
+			if t != c02False && (unknown || nr < 1 || nw < 2) {
+				return c02Unknown
 			}
-			if writes != c02False {
-				writes = c02Unknown
+			return t
+		}
+		add("zeroTestInsideCriticalSection", demote(reads))
+		add("zeroTestInCriticalSectionOfTheDecrement", demote(section))
+		add("postOutsideCriticalSection", demote(posts))
+		add("counterWritesUnderLock", demote(writes))
+	}
+	mb := c02NewAn(eng, "unfinished", map[string]bool{"Err": true, "errors": true, "finished": true, "unfinished": true})
+	// SetErrors: the error object is attached before the monitor enters the error map
+	add("errorAttachedBeforeRegistered", c02Before(mb.trace(c02FindFunc(eng, "monitorBase", "SetErrors")),
+		isAcc("write", "Err"), isAcc("mapwrite", "errors")))
+	// Finish: declared finished, then counted
+	add("finishedFlagBeforeCount", c02Before(mb.trace(c02FindFunc(eng, "monitorBase", "Finish")),
+		isAcc("write", "finished"), isAcc("write", "unfinished")))
+	// Task.Run: no monitor is declared finished before ProcessEvent returned
+	add("finishAfterProcessEvent", c02Before(mb.trace(c02FindFunc(eng, "Task", "Run")),
+		isCall("ProcessEvent"), isAcc("write", "finished")))
+	// HandleError: error attached, monitor finished, then the error observer
+	{
+		w := mb.trace(c02FindFunc(eng, "Task", "HandleError"))
+		a := c02Before(w, isAcc("write", "Err"), isAcc("write", "finished"))
+		b := c02Before(w, isAcc("write", "finished"), isCall("rmErrorObserver"))
+		switch {
+		case a == c02False || b == c02False:
+			add("handleErrorOrder", c02False)
+		case a == c02True && b == c02True:
+			add("handleErrorOrder", c02True)
+		default:
+			add("handleErrorOrder", c02Unknown)
+		}
+	}
+	// AddEventAndWait: an observer is registered (outside AddEvent) before AddEvent is called
+	{
+		w := mb.trace(c02FindFunc(eng, "eventProcessor", "AddEventAndWait"))
+		notVia := func(e c02Ev) bool {
+			return e.kind == "call" && e.name == "AddObserver" && !strings.Contains(">"+e.via+">", ">AddEvent>") && e.via != "AddEvent"
+		}
+		add("waitObserverBeforeAddEvent", c02Before(w, notVia, isCall("AddEvent")))
+		// … and the wait itself is unconditional: a blocking wait exists, no select with several
+		// cases, no timer / context
+		hasWait, bad, spawned := false, false, false
+		for _, e := range w.evs {
+			if strings.HasPrefix(e.via, "AddEvent") || e.via == "AddEvent" {
+				continue
+			}
+			switch {
+			case e.kind == "call" && e.name == "Wait", e.kind == "recv":
+				hasWait = true
+			case e.kind == "select" && e.name != "1" && e.name != "0":
+				bad = true
+			case e.kind == "call" && (e.name == "After" || e.name == "NewTimer" || e.name == "AfterFunc" || e.name == "WithTimeout" || e.name == "WithDeadline" || e.name == "Tick"):
+				bad = true
+			case e.kind == "go":
+				spawned = true
 			}
 		}
-		add("zeroTestInsideCriticalSection", reads)
-		add("postOutsideCriticalSection", posts)
-		add("counterWritesUnderLock", writes)
+		switch {
+		case bad:
+			add("waitIsUnconditional", c02False)
+		case w.unknown || spawned || !hasWait:
+			add("waitIsUnconditional", c02Unknown)
+		default:
+			add("waitIsUnconditional", c02True)
+		}
 	}
-	// SetErrors: the error object is attached before the monitor is entered into the error map
-	se := c02Walk(c02FindFunc(eng, "monitorBase", "SetErrors"), "lock", map[string]bool{"Err": true})
-	if se.unknown || len(se.all("write", "Err")) == 0 || len(se.all("call", "descendantFailed")) == 0 {
-		add("errorAttachedBeforeRegistered", c02Unknown)
-	} else {
-		add("errorAttachedBeforeRegistered", c02B(se.all("write", "Err")[0].pos < se.first("call", "descendantFailed")))
-	}
-	// Finish: declared finished, then counted
-	fi := c02Walk(c02FindFunc(eng, "monitorBase", "Finish"), "lock", map[string]bool{"finished": true})
-	if fi.unknown || len(fi.all("write", "finished")) == 0 {
-		add("finishedFlagBeforeCount", c02Unknown)
-	} else {
-		add("finishedFlagBeforeCount", c02B(fi.all("write", "finished")[0].pos < fi.first("call", "descendantFinished") && fi.first("call", "descendantFinished") != token.NoPos))
-	}
-	// Task.Run: the monitor is finished only after ProcessEvent returned
-	add("finishAfterProcessEvent", c02Walk(c02FindFunc(eng, "Task", "Run"), "lock", nil).ordered([2]string{"call", "ProcessEvent"}, [2]string{"call", "Finish"}))
-	// HandleError: SetErrors, then Finish, then the error observer
-	add("handleErrorOrder", c02Walk(c02FindFunc(eng, "Task", "HandleError"), "lock", nil).ordered([2]string{"call", "SetErrors"}, [2]string{"call", "Finish"}, [2]string{"call", "notifyRootMonitorErrors"}))
-	// AddEventAndWait: the wait observer is registered before the event is added
-	add("waitObserverBeforeAddEvent", c02Walk(c02FindFunc(eng, "eventProcessor", "AddEventAndWait"), "lock", nil).ordered([2]string{"call", "AddObserver"}, [2]string{"call", "AddEvent"}))
-	// AddEvent: finish-handler observer, Activate, AddTask in this order
-	add("handlerObserverBeforeAddTask", c02Walk(c02FindFunc(eng, "eventProcessor", "AddEvent"), "lock", nil).ordered([2]string{"call", "AddObserver"}, [2]string{"call", "Activate"}, [2]string{"call", "AddTask"}))
-	// monitor ids: read and increment of the counter in one critical section — or one atomic
-	// fetch-and-add whose result is the only use of the counter
+	// AddEvent: the finish-handler observer is registered before the task is handed to the pool
+	add("handlerObserverBeforeAddTask", c02Before(mb.trace(c02FindFunc(eng, "eventProcessor", "AddEvent")),
+		isCall("AddObserver"), isCall("AddTask")))
+	// monitor ids: read and increment of the counter in one critical section of a package-level
+	// mutex — or one atomic fetch-and-add whose result is the only use of the counter
 	{
 		fd := c02FindFunc(eng, "", "newMonID")
-		mi := c02Walk(fd, "midcounterLock", map[string]bool{"midcounter": true})
+		ia := c02NewAn(eng, "midcounter", map[string]bool{"midcounter": true})
+		w := ia.trace(fd)
 		acc := 0
-		allHeld := true
-		for _, e := range mi.evs {
+		allHeld, oneSection := true, true
+		ep := -1
+		for _, e := range w.evs {
 			if e.kind == "read" || e.kind == "write" {
 				acc++
 				allHeld = allHeld && e.held
+				if ep >= 0 && e.epoch != ep {
+					oneSection = false
+				}
+				ep = e.epoch
 			}
 		}
 		adds, others := 0, 0
@@ -534,36 +835,52 @@ func c02Facts(root string) ([][2]string, []string, error) {
 			})
 		}
 		switch {
-		case fd == nil || mi.unknown || (acc == 0 && adds == 0):
+		case fd == nil || w.unknown || (acc == 0 && adds == 0):
 			add("monitorIdAllocInCriticalSection", c02Unknown)
 		case adds == 1 && others == 0:
 			add("monitorIdAllocInCriticalSection", c02True)
+		case adds > 0 || acc < 2:
+			add("monitorIdAllocInCriticalSection", c02B(false))
 		default:
-			add("monitorIdAllocInCriticalSection", c02B(allHeld && acc >= 2 && adds == 0))
+			add("monitorIdAllocInCriticalSection", c02B(allHeld && oneSection))
 		}
 	}
-	// AllErrors: under the lock, and no asserting accessor
-	ae := c02Walk(c02FindFunc(eng, "RootMonitor", "AllErrors"), "lock", map[string]bool{"Err": true, "errors": true})
+	// AllErrors: reads the error map under the lock; its whole call tree inside the package
+	// (helpers inlined) contains no assertion / panic
 	var calls []string
-	if ae.unknown || len(ae.all("read", "errors")) == 0 {
-		add("allErrorsUnderLock", c02Unknown)
-	} else {
-		ok := true
-		for _, e := range ae.evs {
-			if (e.kind == "read" || e.kind == "write") && !e.held {
-				ok = false
+	{
+		w := mb.trace(c02FindFunc(eng, "RootMonitor", "AllErrors"))
+		under, n := true, 0
+		asserts := false
+		seen := map[string]bool{}
+		for _, e := range w.evs {
+			if (e.kind == "read" || e.kind == "mapwrite" || e.kind == "write") && e.name == "errors" {
+				n++
+				under = under && e.held
+			}
+			if e.kind == "call" {
+				if strings.HasPrefix(e.name, "Assert") || e.name == "panic" || e.name == "Fatal" || e.name == "Fatalf" || e.name == "Panic" || e.name == "Panicf" {
+					asserts = true
+				}
+				if !seen[e.name] {
+					seen[e.name] = true
+					calls = append(calls, e.name)
+				}
 			}
 		}
-		add("allErrorsUnderLock", c02B(ok))
-	}
-	seen := map[string]bool{}
-	for _, e := range ae.evs {
-		if e.kind == "call" && !seen[e.name] {
-			seen[e.name] = true
-			calls = append(calls, e.name)
+		sort.Strings(calls)
+		if w.unknown || n == 0 {
+			add("allErrorsUnderLock", c02Unknown)
+			if asserts {
+				add("allErrorsNeverAsserts", c02False)
+			} else {
+				add("allErrorsNeverAsserts", c02Unknown)
+			}
+		} else {
+			add("allErrorsUnderLock", c02B(under))
+			add("allErrorsNeverAsserts", c02B(!asserts))
 		}
 	}
-	sort.Strings(calls)
 	// PostEvent only calls the callbacks registered for the posting source (or for all sources)
 	add("postFiltersBySource", c02PostFilter(pub))
 	return facts, calls, nil
